@@ -733,6 +733,42 @@ def check_sub_lag_stops(u):
             continue
         if not (re.search(r"\breturn\b", msk[bs:be]) and re.search(r"error_to_query_event_bytes_with_meta", msk[bs:be])):
             failures.append((obligations[2], _line(src, bs), "arm `%s` of `match queue_task.await` does not send an error event and return" % pat))
+    # (b') the same buffering task reads the live feed from a broadcast receiver: if that receiver itself lagged (more events than the
+    #      broadcast buffer between two polls of the task) the events are gone — the task must give up with an error as well, instead
+    #      of swallowing the Lagged error (a refutable `Ok(res) = sub_rx.recv()` select pattern does exactly that)
+    obligations.append("lagged-receiver-during-catch-up-stops-the-stream")
+    src, msk, o, c = _fn_body(file, "catch_up_sub")
+    mt = re.search(r"queue_tx\s*\.\s*try_send\s*\(", msk[o:c])
+    # the enclosing spawned block: from the nearest preceding `tokio::spawn(` to its closing paren
+    sp = msk.rfind("tokio::spawn(", o, o + mt.start())
+    if sp < 0:
+        raise LostAnchor("catch_up_sub: buffering task (tokio::spawn … queue_tx.try_send) not found")
+    se = match_delim(msk, sp + len("tokio::spawn"))
+    task = msk[sp:se]
+    ml = re.search(r"RecvError\s*::\s*Lagged\s*\([^)]*\)\s*\)?\s*=>", task)
+    if not ml:
+        failures.append(("lagged-receiver-during-catch-up-stops-the-stream", _line(src, sp),
+                         "the buffering task of catch_up_sub never looks at RecvError::Lagged: a lagged receiver is silently skipped and forwarding later resumes past the lost events"))
+    else:
+        k = sp + ml.end()
+        while msk[k].isspace():
+            k += 1
+        e = match_delim(msk, k) if msk[k] == "{" else msk.index(",", k)
+        if not re.search(r"\breturn\s+Err\b", msk[k:e]):
+            failures.append(("lagged-receiver-during-catch-up-stops-the-stream", _line(src, k), "the Lagged arm of the buffering task does not return an error"))
+    samples.append("%s:%d buffering task handles RecvError::Lagged" % (file, _line(src, sp)))
+    # (c) the snapshot rows and the change id they are valid for are read in ONE read transaction (all_rows runs two statements: the row scan
+    #     and `SELECT MAX(id) FROM changes`); otherwise a change committed during the scan is covered by the end-of-query id but not by the rows
+    obligations.append("snapshot-rows-and-their-change-id-read-in-one-transaction")
+    src, msk, o, c = _fn_body(file, "catch_up_sub_anew")
+    ma = re.search(r"\.\s*all_rows\s*\(\s*&\s*(\w+)\s*,", msk[o:c])
+    if not ma:
+        raise LostAnchor("catch_up_sub_anew: no `.all_rows(&<conn>, …)` call")
+    var = ma.group(1)
+    if not re.search(r"\blet\s+(?:mut\s+)?%s\s*=\s*\w+\s*\.\s*(transaction|unchecked_transaction|transaction_with_behavior)\s*\(" % re.escape(var), msk[o:o + ma.start()]):
+        failures.append(("snapshot-rows-and-their-change-id-read-in-one-transaction", _line(src, o + ma.start()),
+                         "all_rows is given `%s`, which is not a transaction opened in catch_up_sub_anew: its two statements can see different states" % var))
+    samples.append("%s:%d all_rows(&%s) inside a transaction" % (file, _line(src, o + ma.start()), var))
     return obligations, failures, samples
 
 
